@@ -144,6 +144,10 @@ class NameBinder(NodeVisitor):
         for name in node.names:
             self.get_binding(name, node.namespace).add_reference(node)
 
+            if name in ['exec', 'eval', 'locals', 'globals', 'vars']:
+                # Unless the module assigns it, this is still the builtin
+                get_global_namespace(node).tainted = True
+
     def visit_MatchAs(self, node):
         if node.name is not None and node.name not in node.namespace.nonlocal_names:
             self.get_binding(node.name, node.namespace).add_reference(node)
